@@ -3,7 +3,8 @@
 /verif/seeded/<id>/ (patch.diff, the demonstration, meta.json) and records what the
 mutation trial (tools/trial.sh) observed. Not used by any registered command."""
 import json, os, shutil, sys, glob, re
-src_root, log_root, dst_root = '/tmp/seed', '/root/trials', '/verif/seeded'
+src_root, log_root, dst_root = '/tmp/seed', os.environ.get('TRIAL_LOGS', '/root/trials'), '/verif/seeded'
+offset = int(os.environ.get('SEED_OFFSET', '0'))  # round 2 stores patch1/patch2 as <prop>-3/<prop>-4
 for d in sorted(glob.glob(src_root + '/C??/out')):
     prop = d.split('/')[-2]
     for k in (1, 2):
@@ -15,7 +16,7 @@ for d in sorted(glob.glob(src_root + '/C??/out')):
         if not any(l.startswith('suite: pass') for l in lines) or not any(re.match(r'demo with change: exit [1-9]', l) for l in lines):
             print('not confirmed, skipped:', prop, k)
             continue
-        dst = f'{dst_root}/{prop}-{k}'
+        dst = f'{dst_root}/{prop}-{k+offset}'
         os.makedirs(dst, exist_ok=True)
         shutil.copy(patch, dst + '/patch.diff')
         if os.path.isdir(f'{d}/demo{k}'):
@@ -32,7 +33,8 @@ for d in sorted(glob.glob(src_root + '/C??/out')):
         caught = [l.split(':')[0].split()[1] for l in lines if l.startswith('CAUGHT')]
         missed = [l.split()[1] for l in lines if l.startswith('MISSED')]
         meta = {
-            'id': f'{prop}-{k}',
+            'id': f'{prop}-{k+offset}',
+            'round': 1 + offset // 2,
             'property': prop,
             'summary': m.get('summary'),
             'needs_to_manifest': m.get('needs_to_manifest'),
